@@ -55,6 +55,21 @@ def fixed_shapes() -> list[str]:
         out.append(f"def disp_list_dead_{n}(i: int) -> int:\n    v = mk(i)\n    a = [{', '.join(['v'] * n)}]\n    return len(a)\n")
         out.append(f"def disp_list_arg_{n}(v: C) -> List[C]:\n    return [{', '.join(['v'] * n)}]\n")
         out.append(f"def disp_tuple_{min(n, 6)}_{n}(i: int) -> int:\n    v = mk(i)\n    t = ({', '.join(['v'] * min(n, 6))},)\n    return use(t[0])\n")
+    # a borrowed argument reassigned on some branches only, while a local dies on the edges that skip
+    # a call: several edges into one join block release the same values but need different increfs
+    # (the refcount transform shares per-edge fix-up blocks through a cache)
+    for re_then in (True, False):
+        for re_else in (True, False):
+            for inner in ("use(s)", "chk(use(s))", "use2(s, s)"):
+                t = "        default = override\n" if re_then else ""
+                e = "        default = override\n" if re_else else ""
+                out.append(
+                    f"def edgefix_{len(out)}(default: C, override: C, a: bool, b: bool) -> C:\n    s = mk(1)\n    if a:\n{t}        if b:\n            {inner}\n    else:\n{e}        if b:\n            {inner}\n    return default\n"
+                )
+    for re_then in (True, False):
+        out.append(
+            f"def edgefix3_{len(out)}(default: C, o1: C, o2: C, k: int) -> C:\n    s = mk(k)\n    if k == 0:\n" + ("        default = o1\n" if re_then else "        pass\n") + "    elif k == 1:\n        default = o2\n        use(s)\n    elif k == 2:\n        use(s)\n    return default\n"
+        )
     # local assigned on one branch only, raising calls inside the branch and after the join
     for a in ("may(i)", "mk(i)"):
         for b in ("may(j)", "mk(j)"):
